@@ -84,6 +84,9 @@ class _Env:
             os.mkdir(home)
             with open(os.path.join(self.tmp, 'gitconfig'), 'w') as fh:
                 fh.write('[user]\n\tname = verif\n\temail = verif@example.org\n')
+            # a user configuration that asks git for colour even when it writes to a pipe
+            with open(os.path.join(self.tmp, 'gitconfig-colour'), 'w') as fh:
+                fh.write('[user]\n\tname = verif\n\temail = verif@example.org\n[color]\n\tui = always\n')
             os.environ.update({'HOME': home, 'GIT_CONFIG_NOSYSTEM': '1', 'GIT_CONFIG_GLOBAL': os.path.join(self.tmp, 'gitconfig'),
                                'JUPYTER_CONFIG_DIR': os.path.join(home, 'jupyter'), 'JUPYTER_CONFIG_PATH': os.path.join(home, 'jupyter'),
                                'JUPYTER_NO_CONFIG': '1'})
@@ -94,8 +97,29 @@ class _Env:
             raise
         return self
 
-    def use(self, renderer):
+    def use(self, renderer, cfg=None):
         os.environ['PATH'] = self.paths[RENDERERS[renderer][2]]
+        # every other configuration runs under a git configuration with color.ui = always
+        import zlib
+        colour = cfg is not None and zlib.crc32(repr(cfg).encode()) % 2 == 0
+        os.environ['GIT_CONFIG_GLOBAL'] = os.path.join(self.tmp, 'gitconfig-colour' if colour else 'gitconfig')
+
+    def labels(self, cfg):
+        """the two display names of a diff: mostly plain file names; also what the git-revision mode produces ('<path> (<rev>)') when a
+        directory of <path> is meanwhile a regular file, names longer than the file system allows, and an existing file"""
+        import zlib
+        k = zlib.crc32(repr(cfg).encode()) % 7
+        if k == 0:
+            blocker = os.path.join(self.tmp, 'data')
+            if not os.path.exists(blocker):
+                with open(blocker, 'w') as fh:
+                    fh.write('now a file\n')
+            return os.path.join(blocker, 'nb.ipynb') + ' (HEAD~2)', os.path.join(blocker, 'nb.ipynb') + ' (HEAD~1)'
+        if k == 1:
+            return 'before ' + 'x' * 300, 'after ' + 'x' * 300
+        if k == 2:
+            return os.path.join(self.tmp, 'gitconfig'), 'b.ipynb'
+        return 'a.ipynb', 'b.ipynb'
 
     def __exit__(self, *a):
         os.environ.clear()
@@ -274,13 +298,14 @@ def render(env, what, payload, cfg, seconds=HANG_SECONDS):
     """one rendering through the public function; returns (text, failure or None)"""
     from nbdime import prettyprint as pp
     config = None
-    env.use(cfg[3])
+    env.use(cfg[3], cfg)
     try:
         config = make_config(cfg)
         with _deadline(seconds):
             if what == 'diff':
                 a, d = payload
-                pp.pretty_print_notebook_diff('a.ipynb', 'b.ipynb', a, d, config)
+                afn, bfn = env.labels(cfg)
+                pp.pretty_print_notebook_diff(afn, bfn, a, d, config)
             elif what == 'notebook':
                 pp.pretty_print_notebook(payload, config)
             elif what == 'decisions':
@@ -775,7 +800,8 @@ def run_bounded(res):
     q = res.tier == 'quick'
     res.coverage['cases_by_class'] = per_kind
     res.coverage['rule'] = (
-        'inputs: notebook pairs (A,B) of the grammar with D=diff_notebooks(A,B) [pretty_print_notebook_diff(A,D), the empty diff on A, pretty_print_notebook(B)]; '
+        'inputs: notebook pairs (A,B) of the grammar with D=diff_notebooks(A,B) [pretty_print_notebook_diff(A,D), the empty diff on A, pretty_print_notebook(B)]; display names: plain file names, '
+        '"<path> (<rev>)" below a regular file, 300-character labels, an existing file (chosen by a hash of the configuration); '
         'triples of the grammar with decide_notebook_merge under the web-tool, the default inline and %s other strategy table(s) [pretty_print_merge_decisions]; '
         'one %d-line non-ASCII text without trailing newline (cell source or stream output, every other line edited: the external tools print more than 64 KiB) '
         'as diff and as one-sided decision list; nbdiff / nbshow / nbmerge --decisions run in-process on files written from triples. '
